@@ -7,6 +7,7 @@ import SevenZ.Lemmas.SpecFiles
 import SevenZ.Lemmas.SpecPack
 import SevenZ.Lemmas.SpecHeader
 import SevenZ.Lemmas.Session
+import SevenZ.Lemmas.SpecEncoded
 namespace SevenZ.C07
 open SevenZ SevenZ.Impl
 
@@ -228,6 +229,44 @@ def recovered (img : Bytes) : Option (List (Option (List Nat) × Option (Nat × 
 
 example : ((sessionArchive exampleConfig exampleMembers).bind recovered ==
     some [(some [100], none), (some [0x1F600, 47, 97], some (0, 0, 3, some 1438416925)), (some [98], some (0, 3, 0, some 0))]) = true := by
+  decide +kernel
+
+
+/-- **The default header mode.**  The same for a create session whose header is stored encoded
+    (py7zr's default) or encrypted: the raw header goes through a one-folder compressor of its
+    own — any codec stages —, the archive is signature header ++ packed data ++ packed header ++
+    EncodedHeader record, and for any decoder of the header folder that inverts what the header
+    compressor produced (the one codec hypothesis), the strict reader `Spec.openArchive` accepts
+    it — start-header and record CRCs, the record's PackInfo and UnpackInfo with the folder's CRC
+    (written since cfa832b), the packed header lying exactly at the end of the data area, the
+    decoded header of the declared length and CRC — and finds inside exactly the members written. -/
+theorem session_archive_encoded_conforms {σ} (cfg : WConfig σ) (hcfg : HConfig σ) (ms : List WMember) (us : List Nat) (img : Bytes)
+    (decode : Spec.SFolder → Bytes → Option Bytes)
+    (wfc : WFConfig cfg) (wfm : WFMembers ms) (rs : ReadableSession cfg ms) (wfh : WFHConfig hcfg)
+    (hU : unpacksizesOf cfg.methodsMap ((sessionCompress cfg ms).1.chain.map (·.fed)) = some us)
+    (husb : ∀ v ∈ us, v < 2 ^ 64)
+    (hns : ∀ m ∈ ms, ∀ ch ∈ m.name, ch ≠ 0x5C)
+    (hbounds : ∀ raw, writeHeaderRaw true (sessionComps cfg ms us).header 0 = some raw →
+      raw.length < 2 ^ 64 ∧ ((sessionCompress cfg ms).1.out ++ (headerCompress hcfg raw).out).length < 2 ^ 64)
+    (himgb : img.length < 2 ^ 64)
+    (hdec : ∀ raw, writeHeaderRaw true (sessionComps cfg ms us).header 0 = some raw →
+      decode (toSFolderCrc (headerFolder hcfg raw)) (headerCompress hcfg raw).out = some raw)
+    (h : sessionArchiveEncoded cfg hcfg ms = some img) :
+    Spec.openArchive decode img = .ok ((sessionComps cfg ms us).expected, (sessionCompress cfg ms).1.out) ∧
+    Spec.members (sessionComps cfg ms us).expected = .ok (expectedMembers ms) :=
+  SevenZ.session_archive_encoded_conforms cfg hcfg ms us img decode wfc wfm rs wfh hU husb hns hbounds himgb hdec h
+
+/-- non-vacuity: the example session in encoded mode, header "codec" = identity, evaluated in the kernel -/
+def exampleHConfig : HConfig Bytes :=
+  { coders := [{ method := [0x21], props := some [0x18] }],
+    chain := [{ stage := { compress := fun s d => (s, d), flush := fun s => (s, []) }, st := [] }], blocksize := 7 }
+
+example : ((sessionArchiveEncoded exampleConfig exampleHConfig exampleMembers).map
+      (fun img => match Spec.openArchive (fun _ b => some b) img with
+        | .ok (H, area) => (Spec.members H).toOption.map (fun l => (l.map (fun m => (m.file.name, m.stream)), area))
+        | .error _ => none)) ==
+    some (some ([(some [100], none), (some [0x1F600, 47, 97], some (0, 0, 3, some 1438416925)), (some [98], some (0, 3, 0, some 0))],
+                [1, 2, 3])) := by
   decide +kernel
 
 /-- boolean vectors as written are read back by the strict reader (all-defined shortcut and
